@@ -305,20 +305,8 @@ def run(res, tier, seed):
         res.violation("a row is stored in a directory no permission check of its request covered (outside every listed class)",
                       {"kind": "oracle", "case": L.case_to_json(small), "observed": o2[0], "model_agrees": bool(c2[0] & 2),
                        "how_to_replay": "python3 tools/check.py C32 --replay <this file>"})
-    if dis:
-        # prefer a disagreement on which the property itself fails on the implementation's output
-        bad = [i for i in dis if not codes[i] & 8]
-        k = min(bad or dis, key=lambda i: (len(cases[i]["events"]), i))
-        want_oracle = bool(bad)
-        small = shrink(cases[k], variant, lambda c: _still(c, variant, lambda code, c2, o2: (code & 1) and not (code & 2) and
-                                                           (not want_oracle or not (code & 8))))
-        o2, c2 = evaluate([small], variant, "shrunk")
-        oracle_fails = not (c2[0] & 8)
-        res.violation("model and implementation disagree on a request history (%d cases)" % len(dis),
-                      {"kind": "correspondence", "correspondence": TIE_NAME, "case": L.case_to_json(small), "observed": o2[0],
-                       "disagreeing_cases": len(dis), "oracle_fails_on_impl": oracle_fails,
-                       "how_to_replay": "python3 tools/check.py C32 --replay <this file>"},
-                      no_input=not oracle_fails, suffix="corr")
+    L.report_disagreements(res, PID, cases, obs, codes, dis, 8, evaluate, lambda c, v, pred: shrink(c, v, pred),
+                           variant, TIE_NAME, "a request history")
     if failed and not res.violations:
         res.violation("proof obligation(s) no longer check: " + "; ".join(r for _, r in failed),
                       {"kind": "obligation-failed", "theorems": [t for t, _ in failed], "detail": [r for _, r in failed]},
